@@ -6,7 +6,8 @@
 From Coq Require Import List NArith ZArith String.
 From Coq Require Import Strings.Byte.
 From GoBT Require Import lib.Bytes lib.Hex lib.Checked gen.OpNames gen.OpTable model.Push model.Parser model.Asm
-  spec.PushSpec spec.TemplateSpec proofs.PushProofs proofs.ParserProofs proofs.TokenProofs proofs.AsmProofs proofs.AuditD13.
+  spec.PushSpec spec.TemplateSpec spec.CondDepthSpec proofs.PushProofs proofs.ParserProofs proofs.TokenProofs proofs.AsmProofs proofs.AuditD13
+  proofs.CondDepthProofs.
 Import ListNotations.
 Local Open Scope N_scope.
 
@@ -203,6 +204,40 @@ Print Assumptions C13_to_asm_marks_undecodable.
 
 Example C13_to_asm_marks_example : to_asm [x76; x4c] = Ok "OP_DUP [error]"%string /\ tokens p2pkh_ex2.
 Proof. split; [vm_compute; reflexivity|]. apply decode_ok_iff_tokens. vm_compute. reflexivity. Qed.
+
+(** Conditional depth (spec/CondDepthSpec.v): only OP_IF / OP_NOTIF open a block and only OP_ENDIF closes one - not
+    OP_ELSE, OP_VERIF, OP_VERNOTIF, nor bytes inside push data.  After ANY token sequence that leaves that depth at 0
+    an OP_RETURN ends the parse whatever bytes follow (they need not be pushes): the result is the prefix's opcodes,
+    OP_RETURN and one unformatted token, and Unparse returns the script. *)
+Theorem C13_parse_stops_at_top_level_return : forall d pre, walk d pre 0%Z -> forall tail,
+  exists ops, parse_from false d pre = Ok ops /\
+              parse_from false d (pre ++ x6a :: tail) = Ok (ops ++ stop_ops tail) /\
+              unparse (ops ++ stop_ops tail) = Ok (pre ++ x6a :: tail).
+Proof. exact parse_stops_at_top_level_return. Qed.
+Print Assumptions C13_parse_stops_at_top_level_return.
+
+(** at any other depth (inside a block, or below zero after a stray OP_ENDIF) the OP_RETURN is an ordinary opcode: a
+    truncated push behind it is an error, with or without ErrorOnCheckSig *)
+Theorem C13_parse_nested_return_is_an_opcode : forall d pre d' mid t, walk d pre d' -> d' <> 0%Z ->
+  tokens_no_return mid -> truncated_push t ->
+  forall eocs, parse_from eocs d (pre ++ x6a :: mid ++ t) = Err.
+Proof. exact parse_nested_return_is_an_opcode. Qed.
+Print Assumptions C13_parse_nested_return_is_an_opcode.
+
+(** the hypotheses are satisfiable, and OP_VERIF / OP_VERNOTIF / OP_ELSE / push data do not move the depth *)
+Example C13_depth_unmoved_by_verif_vernotif_else : walk 0 [x65; x66; x67] 0 /\ walk 0 [x02; x63; x63] 0 /\
+  walk 0 [x63; x6a; x67; x68; x68; x64] 0.
+Proof. exact (conj walk_verif_vernotif_else (conj walk_push_of_if walk_balanced)). Qed.
+Example C13_verif_then_return_then_blob :
+  parse false [x65; x6a; x05] = Ok [mkPop 101 [] 1 false; mkPop 106 [] 1 false; mkPop 5 [] 1 true] /\
+  parse false [x51; x65; x6a; x4d; x01] =
+    Ok [mkPop 81 [] 1 false; mkPop 101 [] 1 false; mkPop 106 [] 1 false; mkPop 77 [x01] 2 true] /\
+  parse false [x67; x6a; x4c] = Ok [mkPop 103 [] 1 false; mkPop 106 [] 1 false; mkPop 76 [] 1 true].
+Proof. exact parse_verif_return_blob. Qed.
+Example C13_nested_return_rejects_blob :
+  parse false [x63; x6a; x05] = Err /\ parse false [x64; x6a; x4c] = Err /\ parse false [x68; x6a; x05] = Err /\
+  walk 0 [x63] 1 /\ walk 0 [x68] (-1) /\ truncated_push [x05].
+Proof. exact parse_nested_return_rejects. Qed.
 
 (** State inventory (tie, translator part): every Go struct the model of this property represents has, in the
     source as it is NOW (gen/Structs.v, regenerated on every run), exactly the fields - names, types, order - the
